@@ -205,6 +205,12 @@ func (s *sqlStore) add(serviceID string, presentation vc.VerifiablePresentation,
 
 // storePresentation creates a presentationRecord from a VerifiablePresentation and stores it, with its credentials, in the database.
 func storePresentation(tx *gorm.DB, serviceID string, timestamp int, presentation vc.VerifiablePresentation) (*presentationRecord, error) {
+	if presentation.ID == nil {
+		return nil, errors.New("presentation has no ID")
+	}
+	if presentation.JWT() == nil {
+		return nil, errors.New("presentation is not in JWT format")
+	}
 	credentialSubjectID, err := credential.PresentationSigner(presentation)
 	if err != nil {
 		return nil, err
